@@ -606,11 +606,16 @@ Section Oracles.
 
     Lemma monitor_sound (c : ecase) (k : client_kind) h :
       c_height c = Some h -> h64 (c_head c) ->
+      (forall p, c_proof c = Some p -> json_proof p = c_json c) ->
       gt_consistent c k h ->
       verify (cs_of c k) (cstore_of c) (c_height c) (c_proof c) (c_ack c) (c_src c) (c_dst c) (c_seq c) (c_commitment c) = Ok tt ->
       mon_copy c (delay_block (cs_of c k)) 0 = [].
     Proof.
-      intros EH HH GT V. unfold mon_copy. cbn [Nat.eqb]. unfold accept_ok.
+      intros EH HH HJ GT V. unfold mon_copy. cbn [Nat.eqb]. unfold accept_ok.
+      assert (OS : one_storage_proof c = true).
+      { apply verify_ok_iff in V. destruct V as (h1 & p1 & _ & EP & r & rootb & sp & v & t & _ & _ & J & _ & _ & _ & _ & SP & _).
+        unfold one_storage_proof. rewrite <- (HJ p1 EP), J, SP. reflexivity. }
+      rewrite OS.
       apply (sound commits mpt_sound) in V. destruct V as (h0 & p & E1 & E2 & G & P).
       rewrite EH in E1. inversion E1; subst h0.
       destruct (gates_numeric (cs_of c k) h HH G) as (_ & N2 & N3). cbn [cs_of cs_head] in N2, N3.
@@ -618,6 +623,7 @@ Section Oracles.
       replace (rh h <=? rh (c_head c)) with true by (symmetry; apply N.leb_le; exact N2).
       replace (delay_block (cs_of c k) <=? rh (c_head c) - rh h) with true by (symmetry; apply N.leb_le; exact N3).
       cbn [andb app].
+      rewrite app_nil_r.
       destruct (Nat.eqb (length (c_commitment c)) 32) eqn:L; [|reflexivity]. apply Nat.eqb_eq in L.
       destruct P as (rootb & acct & S & W & LS & LC & HW & HS).
       destruct (GT rootb S) as (world & CW & GA).
